@@ -1,3 +1,4 @@
+mod ackmgr;
 mod apps;
 mod common;
 mod frames;
@@ -58,6 +59,8 @@ fn main() {
             let stalls = runs.iter().filter(|r| r.iter().any(|e| e["ev"] == "stall" || e["ev"] == "panic")).count();
             json!({"runs": runs.len(), "events": n, "stalls_or_panics": stalls})
         }
+        // ackmgr-run <seed> <count> <out.ndjson>
+        "ackmgr-run" => ackmgr::run(&args[1..]),
         // one <scenario.json> <out.ndjson>
         "one" => {
             let sc: scen::Scenario = serde_json::from_str(&std::fs::read_to_string(&args[1]).unwrap()).unwrap();
